@@ -28,6 +28,10 @@ def handle (line : String) : String :=
   | "qexplore" :: toks => BinlogVerif.ConcProto.cmdQExplore toks
   | "queue" :: toks => BinlogVerif.ConcProto.cmdQueue toks
   | "mser" :: toks => BinlogVerif.Mser.Proto.cmdMser toks
+  | ["tagvisit", t, b] =>
+    match hexArg t, hexArg b with
+    | some t, some b => BinlogVerif.Mser.Proto.cmdTagVisit t b
+    | _, _ => "bad-op"
   | "mserinto" :: toks => BinlogVerif.Mser.Proto.cmdMserInto toks
   | ["print", s, h] => match hexArg h with | some b => cmdPrint (s == "1") b | none => "bad-op"
   | _ => "bad-op"
